@@ -58,7 +58,10 @@ class Runner:
         self.lganm = [sempler.LGANM(w, np.arange(len(w), dtype=float), np.ones(len(w)) * (1 + 0.5 * k)) for k, w in enumerate(W)]
         self.lganm_iv = [dict(), dict(do_interventions={0: (1.0, 2.0)}), dict(do_interventions={1: 3}),
                          dict(shift_interventions={0: (1, 1)}, noise_interventions={1: (0, 0.5)}),
-                         dict(noise_interventions={0: 2.5}), dict(do_interventions={0: 1}, shift_interventions={0: (2, 2)})]
+                         dict(noise_interventions={0: 2.5}), dict(do_interventions={0: 1}, shift_interventions={0: (2, 2)}),
+                         # the same parameters on the same (non-source) target under different intervention types
+                         dict(noise_interventions={2: (1.0, 2.0)}), dict(do_interventions={2: (1.0, 2.0)}),
+                         dict(shift_interventions={2: (1.0, 2.0)}), dict(do_interventions={1: (1.0, 1.5)}), dict(noise_interventions={1: (1.0, 1.5)})]
         B = np.array([[1.0, 0], [2, 1], [0, 3]])
         self.normal = [sempler.NormalDistribution(np.zeros(2), np.array([[2.0, 0.5], [0.5, 1]])),
                        sempler.NormalDistribution(np.array([1.0, -1, 0]), B @ B.T),               # singular (rank 2)
@@ -220,7 +223,7 @@ def api_step():
     return st.one_of(
         st.fixed_dictionaries({"op": st.just("lganm_new"), "fx": st.integers(0, 3), "means": st.sampled_from([[0, 1], [-2, 2], [1, 1]]),
                                "variances": st.sampled_from([[0, 1], [0.5, 2], [1, 1]])}),
-        st.fixed_dictionaries({"op": st.just("lganm_sample"), "fx": st.integers(0, 3), "iv": st.integers(0, 5), "n": st.sampled_from([1, 3, 10])}),
+        st.fixed_dictionaries({"op": st.just("lganm_sample"), "fx": st.sampled_from([0, 0, 1, 2, 2, 3]), "iv": st.integers(0, 10), "n": st.sampled_from([1, 3, 10])}),
         st.fixed_dictionaries({"op": st.just("normal_sample"), "fx": st.integers(0, 3), "n": st.sampled_from([1, 3, 10])}),
         st.fixed_dictionaries({"op": st.just("anm_sample"), "fx": st.integers(0, 2), "iv": st.integers(0, 5), "n": st.sampled_from([1, 3, 10])}),
         st.fixed_dictionaries({"op": st.just("dag_avg_deg"), "p": st.integers(2, 7), "k": st.sampled_from([0, 1, 1.5, 2]), "w": W_RANGES,
